@@ -61,7 +61,7 @@ Proof. intros Hn. pose proof (mod3_range n) as Hm. unfold bumped, put_padding.
   - split; [repeat split|]. split; [reflexivity|]. split; [reflexivity|]. intros; reflexivity. Qed.
 
 Section Shared.
-Variables (m : mode) (rv : Z -> Z -> Z).
+Variables (m : mode) (rv : Z -> Z -> list Z -> Z).
 
 Lemma status_refusal l pos len : refusal (status_of l pos len) = true.
 Proof. unfold status_of. destruct (_ <=? _); [reflexivity|]. destruct (l_connected l); reflexivity. Qed.
